@@ -222,7 +222,7 @@ func TestC10(t *testing.T) {
 	evid.Main(t, "C10", func(rec *evid.Rec) {
 		rec.Rule("model-based histories: start = suite/bench/synthetic/motif root (FEN-loaded, hash history reset, en-passant field engine-normalised), then up to 200 generated steps from the actions {reverse my move of two plies ago, replay the last 4-ply cycle, irreversible move, double push/castle/promotion, king/rook/knight shuffle, random}; after EVERY move Threefold() is compared with min(3, occurrences of the reference identity (placement, side, rights, en-passant capturability) in the history list). UCI leg: the same games through `position fen F moves ...` + `go depth 2` (bestmove 0000 iff third occurrence / no legal move / clock>=100). Two games alive at once (set up through board.StartPos() and FromFEN) advanced alternately must not disturb each other's counts. Separate class: start FENs carrying a raw, uncapturable en-passant target (known finding). Non-trivial = step with true count >= 2, or an earlier position with the same placement but different rights / en-passant capturability; distinct by (start, move prefix)")
 		rec.Assume("reference identity of positions from verif/refchess (Key: placement, side, rights, capturable en-passant)")
-		rec.Rapid(t, "history", evid.Pick(20000, 300000), func(t *rapid.T) {
+		rec.Rapid(t, "history", evid.Pick(20000, 2000000), func(t *rapid.T) {
 			root, label := gen.Root(t)
 			if gen.Chance(t, 1, 3, "startpos") {
 				root, label = refchess.MustFEN(gen.StartFEN), "startpos"
@@ -242,7 +242,7 @@ func TestC10(t *testing.T) {
 				t.Fatalf("%v", err)
 			}
 		})
-		rec.Rapid(t, "long_history", evid.Pick(1500, 20000), func(t *rapid.T) {
+		rec.Rapid(t, "long_history", evid.Pick(1500, 100000), func(t *rapid.T) {
 			// games that go on past a halfmove clock of 100 and 127, histories of up to 400 plies
 			root, _ := gen.Root(t)
 			if gen.Chance(t, 1, 2, "startpos") {
@@ -266,7 +266,7 @@ func TestC10(t *testing.T) {
 				t.Fatalf("%v", err)
 			}
 		})
-		rec.Rapid(t, "two_games", evid.Pick(3000, 40000), func(t *rapid.T) {
+		rec.Rapid(t, "two_games", evid.Pick(3000, 300000), func(t *rapid.T) {
 			// two games alive at the same time, advanced alternately: their histories must not interfere.
 			// Both start from the initial position, set up through board.StartPos() and / or FromFEN.
 			c := TwoCase{ViaStartPos: [2]bool{gen.Chance(t, 2, 3, "sp0"), gen.Chance(t, 2, 3, "sp1")}}
@@ -281,7 +281,7 @@ func TestC10(t *testing.T) {
 				t.Fatalf("%v", err)
 			}
 		})
-		rec.Rapid(t, "raw_ep_start", evid.Pick(6000, 60000), func(t *rapid.T) {
+		rec.Rapid(t, "raw_ep_start", evid.Pick(6000, 300000), func(t *rapid.T) {
 			// start FEN with a raw en-passant target (after a double push), capturable or not
 			var root refchess.Pos
 			if p, m, _, ok := gen.EPMotif(t); ok && gen.Chance(t, 2, 3, "motif") {
@@ -322,7 +322,7 @@ func TestC10(t *testing.T) {
 				t.Fatalf("%v", err)
 			}
 		})
-		rec.Rapid(t, "uci", evid.Pick(5000, 50000), func(t *rapid.T) {
+		rec.Rapid(t, "uci", evid.Pick(5000, 200000), func(t *rapid.T) {
 			root, _ := gen.Root(t)
 			if gen.Chance(t, 1, 2, "startpos") {
 				root = refchess.MustFEN(gen.StartFEN)
